@@ -169,6 +169,16 @@ fn local_case<B: Backend>(cx: &mut Ctx, rng: &mut Prng, thorough: bool) {
             match ev(fam, &c["payload_from_nonce"], &inp) {
                 Ok(p) => {
                     let text = dt::token_string::<B, Local>(&p, &f);
+                    {
+                        // the same key object refuses a corrupted copy first
+                        let mut bad = p.clone();
+                        let n = bad.len();
+                        bad[n - 1] ^= 0x80;
+                        let bt = dt::token_string::<B, Local>(&bad, &f);
+                        let _ = catch_unwind(AssertUnwindSafe(|| {
+                            SealedToken::<B::V, Local, Raw, Vec<u8>>::from_str(&bt).and_then(|t| t.unseal(k, &i, &NoValidation::dangerous_no_validation())).is_ok()
+                        }));
+                    }
                     let r = catch_unwind(AssertUnwindSafe(|| {
                         SealedToken::<B::V, Local, Raw, Vec<u8>>::from_str(&text).and_then(|t| t.unseal(k, &i, &NoValidation::dangerous_no_validation()))
                     }));
@@ -320,11 +330,22 @@ fn public_case<B: Backend>(cx: &mut Ctx, rng: &mut Prng, pairs: &[keys::Pair]) {
         let mut p = m.clone();
         p.extend_from_slice(&sig);
         let text = dt::token_string::<B, Public>(&p, &f);
+        // a forged token is refused by the same long-lived key object first: nothing that refusal leaves behind (in the key, in a
+        // thread-local, in a library error queue) may change the verdict on the conforming token that follows
+        {
+            let mut forged = p.clone();
+            let n = forged.len();
+            forged[n - 1] ^= 0x01;
+            let ft = dt::token_string::<B, Public>(&forged, &f);
+            let _ = catch_unwind(AssertUnwindSafe(|| {
+                SealedToken::<B::V, Public, Raw, Vec<u8>>::from_str(&ft).and_then(|t| t.unseal(&pk, &i, &NoValidation::dangerous_no_validation())).is_ok()
+            }));
+        }
         let r = catch_unwind(AssertUnwindSafe(|| {
             SealedToken::<B::V, Public, Raw, Vec<u8>>::from_str(&text).and_then(|t| t.unseal(&pk, &i, &NoValidation::dangerous_no_validation()))
         }));
         match r {
-            Ok(Ok(u)) => cx.emit("reference", "accepted-same", u.claims.0 == m && u.footer == f, json!({"accepted": true})),
+            Ok(Ok(u)) => cx.emit("reference", "accepted-same", u.claims.0 == m && u.footer == f, json!({"accepted": true, "after": "rejected-forgery"})),
             Ok(Err(e)) => cx.emit("reference", "accepted-same", false, json!({"accepted": false, "real_error": errname(&e)})),
             Err(_) => cx.emit("reference", "accepted-same", false, json!({"panic": true})),
         }
